@@ -67,7 +67,10 @@ def _compatible(pal, steps):
     stay integers for subsampling, and the `adversarial` images are not closed under addition."""
     idp, valp = pal
     calls = {s_["call"] for s_ in steps}
-    arith = calls & {"merge", "concat", "collapse", "norm", "rankdata", "pa", "transform"} or any(
+    if any(s_["call"] == "summary" and s_["args"].get("kind", "").startswith("cli_") for s_ in steps):
+        return [idp, "plain"]           # printed reports are parsed at face value
+    arith = calls & {"merge", "concat", "collapse", "norm", "rankdata", "pa", "transform", "from_adjacency",
+                     "summary"} or any(
         s_["call"] == "read" and s_["args"].get("kind") in SUM_KINDS for s_ in steps)
     if calls & COUNT_CALLS:
         return [idp, "plain"]
